@@ -12,9 +12,14 @@ type W struct {
 	buf   []byte
 	nbits int
 	// statistics
-	Unaligned int
-	Aligns    int
-	MaxLen    int
+	Unaligned int // bit fields written without alignment
+	Aligns    int // alignments that actually inserted padding bits
+	MaxLen    int // largest general length determinant written
+	BigRange  int // constrained whole numbers with range > 64K
+	MaxList   int // longest SEQUENCE OF
+	OptBits   int // OPTIONAL fields present
+	OpenDepth int // deepest nesting of open types
+	depth     int
 }
 
 func (w *W) Bit(b uint64) {
@@ -125,6 +130,7 @@ func (w *W) Constrained(n, lb, ub int64) error {
 		w.Align()
 		w.Bits(v, 16)
 	default:
+		w.BigRange++
 		maxOct := octetsFor(r - 1)
 		k := octetsFor(v)
 		// length k as constrained whole number in 1..maxOct, as a bit-field
@@ -315,6 +321,11 @@ func (w *W) OctetString(b []byte, p P) error {
 	})
 }
 
+// SchemaError: the Go type graph / tags do not describe a well-formed ASN.1 type.
+type SchemaError struct{ Msg string }
+
+func (e *SchemaError) Error() string { return "schema: " + e.Msg }
+
 var (
 	tBitString = "aper.BitString"
 	tOctet     = "aper.OctetString"
@@ -359,7 +370,7 @@ func (w *W) enc(v reflect.Value, p P) error {
 		return w.OctetString(v.Bytes(), p)
 	case tEnum:
 		if p.vLB == nil || p.vUB == nil {
-			return fmt.Errorf("enum without bounds")
+			return &SchemaError{"ENUMERATED without value bounds in its tag"}
 		}
 		n := int64(v.Uint())
 		if n < *p.vLB || n > *p.vUB {
@@ -390,6 +401,9 @@ func (w *W) enc(v reflect.Value, p P) error {
 		}
 		ep := p
 		ep.sLB, ep.sUB, ep.sizeExt = nil, nil, false
+		if v.Len() > w.MaxList {
+			w.MaxList = v.Len()
+		}
 		var err error
 		e2 := w.Sized(v.Len(), lb, ub, p.sizeExt, has, func(from, to int) {
 			for i := from; i < to && err == nil; i++ {
@@ -412,7 +426,10 @@ func (w *W) enc(v reflect.Value, p P) error {
 				if p.refVal == nil || ap.refVal == nil || *p.refVal != *ap.refVal {
 					return fmt.Errorf("open type does not match its identifier")
 				}
-				inner := &W{}
+				inner := &W{depth: w.depth + 1}
+				if inner.depth > w.OpenDepth {
+					w.OpenDepth = inner.depth
+				}
 				if err := inner.enc(v.Field(present), ap); err != nil {
 					return err
 				}
@@ -422,6 +439,14 @@ func (w *W) enc(v reflect.Value, p P) error {
 				}
 				w.Unaligned += inner.Unaligned
 				w.Aligns += inner.Aligns
+				w.BigRange += inner.BigRange
+				w.OptBits += inner.OptBits
+				if inner.MaxList > w.MaxList {
+					w.MaxList = inner.MaxList
+				}
+				if inner.OpenDepth > w.OpenDepth {
+					w.OpenDepth = inner.OpenDepth
+				}
 				if inner.MaxLen > w.MaxLen {
 					w.MaxLen = inner.MaxLen
 				}
@@ -437,10 +462,10 @@ func (w *W) enc(v reflect.Value, p P) error {
 				return nil
 			}
 			if p.vUB == nil {
-				return fmt.Errorf("choice without bound")
+				return &SchemaError{"CHOICE " + t.Name() + " without valueUB in the referring tag"}
 			}
 			if int(*p.vUB) != t.NumField()-2 {
-				return fmt.Errorf("schema: CHOICE %s valueUB %d but %d alternatives", t.Name(), *p.vUB, t.NumField()-1)
+				return &SchemaError{fmt.Sprintf("CHOICE %s valueUB %d but %d alternatives", t.Name(), *p.vUB, t.NumField()-1)}
 			}
 			if p.valExt {
 				w.Bit(0)
@@ -462,6 +487,7 @@ func (w *W) enc(v reflect.Value, p P) error {
 					w.Bit(0)
 				} else {
 					w.Bit(1)
+					w.OptBits++
 				}
 			}
 		}
@@ -473,7 +499,7 @@ func (w *W) enc(v reflect.Value, p P) error {
 			if fps[i].openType {
 				sib := v.FieldByName(fps[i].refName)
 				if !sib.IsValid() {
-					return fmt.Errorf("no reference field")
+					return &SchemaError{"open type without reference field " + fps[i].refName}
 				}
 				rv, err := refValueOf(sib)
 				if err != nil {
